@@ -192,6 +192,9 @@ pub unsafe extern "C" fn bundle_free(ptr: *mut Bundle) {
 
 /// Get the metadata from a given bundle.
 ///
+/// In case the source or destination endpoint ID contains a NUL byte and can
+/// therefore not be represented as a C string, a null pointer is returned.
+///
 /// # Safety
 ///
 /// Should only be called from FFI interface.
@@ -203,9 +206,16 @@ pub unsafe extern "C" fn bundle_get_metadata(bndl: *mut Bundle) -> *mut BundleMe
     let timestamp = bndl.primary.creation_timestamp.dtntime();
     let seqno = bndl.primary.creation_timestamp.seqno();
     let lifetime = bndl.primary.lifetime.as_millis() as u64;
-    let src_str = CString::new(bndl.primary.source.to_string()).unwrap();
+    // an endpoint ID containing a NUL byte cannot be handed out as a C string
+    let src_str = match CString::new(bndl.primary.source.to_string()) {
+        Ok(s) => s,
+        Err(_) => return std::ptr::null_mut::<BundleMetaData>(),
+    };
+    let dst_str = match CString::new(bndl.primary.destination.to_string()) {
+        Ok(s) => s,
+        Err(_) => return std::ptr::null_mut::<BundleMetaData>(),
+    };
     let src = src_str.into_raw();
-    let dst_str = CString::new(bndl.primary.destination.to_string()).unwrap();
     let dst = dst_str.into_raw();
     Box::into_raw(Box::new(BundleMetaData {
         src,
